@@ -821,3 +821,119 @@ Proof.
   - intros ->. eauto.
   - intros r ->. eauto.
 Qed.
+
+(** The reader only stops by closing the connection. *)
+Lemma reader_dead_closed_step s l s' :
+  step s l = Some s' -> (reader_dead s = true -> closed s = true) -> (reader_dead s' = true -> closed s' = true).
+Proof.
+  intros Hs Hi. destruct l; cbn [step] in Hs;
+    repeat match type of Hs with
+           | context [if ?b then _ else _] => destruct b eqn:?
+           | context [match ?x with _ => _ end] => destruct x eqn:?
+           end; try discriminate; inversion Hs; subst; simpl;
+    unfold close_with; repeat match goal with |- context [if ?b then _ else _] => destruct b eqn:? end;
+    simpl; auto; try (intros; reflexivity); try (intros D; specialize (Hi D); congruence).
+Qed.
+
+Lemma reader_dead_closed_run : forall ls s s',
+  run s ls = Some s' -> (reader_dead s = true -> closed s = true) -> (reader_dead s' = true -> closed s' = true).
+Proof.
+  induction ls as [|l ls IH]; intros s s' R Hi; simpl in R; [inversion R; subst; exact Hi|].
+  destruct (step s l) as [s1|] eqn:E; [|discriminate].
+  eapply IH; [exact R|]. eapply reader_dead_closed_step; eauto.
+Qed.
+
+Definition reader_label (l : label) : bool :=
+  match l with LLookup | LHandoff | LRecvErr => true | _ => false end.
+
+(** No waiting call is ever stuck for good: from every reachable state there
+    is a continuation made only of the reader finishing its current frame and
+    then seeing its (always armed) read deadline expire or the peer fail, after
+    which the call's wait is enabled. The caller needs no help from any other
+    caller. *)
+Theorem waiting_call_can_be_woken maxcq tcp nq ls s c :
+  run (init maxcq tcp nq) ls = Some s -> cpc (calls s c) = PWaiting ->
+  exists rs s1 k s2, forallb reader_label rs = true /\ run s rs = Some s1 /\
+                     cpc (calls s1 c) = PWaiting /\ step s1 (LSelect c k) = Some s2.
+Proof.
+  intros R P.
+  assert (D : reader_dead s = true -> closed s = true).
+  { eapply reader_dead_closed_run; [exact R|]. simpl. discriminate. }
+  assert (W : forall s1, cpc (calls s1 c) = PWaiting -> closed s1 = true ->
+              exists s2, step s1 (LSelect c SelClose) = Some s2).
+  { intros s1 P1 C1. cbn [step]. rewrite P1, C1. simpl. eauto. }
+  destruct (closed s) eqn:C.
+  { exists [], s, SelClose. destruct (W s P C) as [s2 H2]. exists s2. repeat split; auto. }
+  assert (Rd : reader_dead s = false) by (destruct (reader_dead s); [specialize (D eq_refl); congruence|reflexivity]).
+  (* let the reader finish the frame it holds, then fail *)
+  assert (Fin : forall s0, reader_dead s0 = false -> closed s0 = false -> hold s0 = None -> cpc (calls s0 c) = PWaiting ->
+                exists s1, step s0 LRecvErr = Some s1 /\ cpc (calls s1 c) = PWaiting /\ closed s1 = true).
+  { intros s0 R0 C0 H0 P0. cbn [step]. rewrite R0, H0. simpl. eexists. split; [reflexivity|].
+    unfold close_with. rewrite C0. simpl. auto. }
+  destruct (hold s) as [r|] eqn:Hh.
+  - assert (HO : forall s0, hold s0 = Some r -> reader_dead s0 = false -> closed s0 = false -> cpc (calls s0 c) = PWaiting ->
+                 forall t, htarget s0 = Some t ->
+                 exists s1, step s0 LHandoff = Some s1 /\ hold s1 = None /\ reader_dead s1 = false /\ closed s1 = false
+                            /\ cpc (calls s1 c) = PWaiting).
+    { intros s0 H0 R0 C0 P0 t T0. cbn [step]. rewrite H0, T0. eexists. split; [reflexivity|]. simpl.
+      repeat split; auto.
+      destruct t as [c0|]; [|exact P0].
+      destruct (cbuf (calls s0 c0)); [exact P0|]. destruct (cres (calls s0 c0)); [exact P0|].
+      destruct (Nat.eq_dec c c0) as [->|Hne]; [rewrite upd_same; exact P0|rewrite upd_other by exact Hne; exact P0]. }
+    destruct (htarget s) as [t|] eqn:Ht.
+    + destruct (HO s Hh Rd C P t Ht) as (s1 & S1 & H1 & R1 & C1 & P1).
+      destruct (Fin s1 R1 C1 H1 P1) as (s2 & S2 & P2 & C2).
+      destruct (W s2 P2 C2) as [s3 S3].
+      exists [LHandoff; LRecvErr], s2, SelClose, s3.
+      split; [reflexivity|]. split; [cbn [run]; rewrite S1, S2; reflexivity|]. auto.
+    + assert (L : exists s0, step s LLookup = Some s0 /\ hold s0 = Some r /\ reader_dead s0 = false /\ closed s0 = false
+                             /\ cpc (calls s0 c) = PWaiting /\ exists t, htarget s0 = Some t).
+      { cbn [step]. rewrite Hh, Ht. eexists. split; [reflexivity|]. simpl. repeat split; eauto. }
+      destruct L as (s0 & S0 & H0 & R0 & C0 & P0 & t & T0).
+      destruct (HO s0 H0 R0 C0 P0 t T0) as (s1 & S1 & H1 & R1 & C1 & P1).
+      destruct (Fin s1 R1 C1 H1 P1) as (s2 & S2 & P2 & C2).
+      destruct (W s2 P2 C2) as [s3 S3].
+      exists [LLookup; LHandoff; LRecvErr], s2, SelClose, s3.
+      split; [reflexivity|]. split; [cbn [run]; rewrite S0, S1, S2; reflexivity|]. auto.
+  - destruct (Fin s Rd C Hh P) as (s2 & S2 & P2 & C2). destruct (W s2 P2 C2) as [s3 S3].
+    exists [LRecvErr], s2, SelClose, s3.
+    split; [reflexivity|]. split; [cbn [run]; rewrite S2; reflexivity|]. auto.
+Qed.
+
+(** After the connection is closed later calls fail at once. *)
+Theorem after_close_refuses s c orig s' :
+  closed s = true -> step s (LReserve c orig) = Some s' -> cres (calls s' c) = Some (RRefused true).
+Proof.
+  intros C Hs. cbn [step] in Hs.
+  destruct (pc_eqb (cpc (calls s c)) PIdle && negb (mem_nat c (live s))); [|discriminate].
+  rewrite C in Hs. inversion Hs; subst. simpl. rewrite upd_same. reflexivity.
+Qed.
+
+Theorem after_close_exchange_fails s c s' :
+  closed s = true -> step s (LCheck c) = Some s' -> cres (calls s' c) = Some (RErr EClosed).
+Proof.
+  intros C Hs. cbn [step] in Hs.
+  destruct (pc_eqb (cpc (calls s c)) PReserved); [|discriminate].
+  rewrite C in Hs. inversion Hs; subst. unfold end_unregistered. simpl. rewrite upd_same. reflexivity.
+Qed.
+
+(** Finding F10: after any frame the reader re-arms the IDLE timeout although
+    another query is still written and unanswered. *)
+Theorem idle_rearm_refuted :
+  exists ls s, run (init 4 false 0) ls = Some s /\
+    cpc (calls s 1%nat) = PWaiting /\ cgot (calls s 1%nat) = None /\ reader_dead s = false /\
+    hd ArmWaiting (arms s) = ArmIdle.
+Proof.
+  exists [LReserve 0 1; LReserve 1 2; LCheck 0; LAdd 0; LWriteBegin 0; LWriteEnd 0 true; LArm 0;
+          LCheck 1; LAdd 1; LWriteBegin 1; LWriteEnd 1 true; LArm 1;
+          LRecv (mkReply 0 0 100 (Some 0%nat)); LLookup; LHandoff].
+  eexists. split; [vm_compute; reflexivity|]. vm_compute. repeat split; reflexivity.
+Qed.
+
+(** Without an intervening frame, the deadline armed while a query waits is the waiting-reply one. *)
+Theorem arm_sets_waiting_deadline s c s' :
+  step s (LArm c) = Some s' -> waiting_resp s' = true /\ (waiting_resp s = false -> hd ArmIdle (arms s') = ArmWaiting).
+Proof.
+  intros Hs. cbn [step] in Hs. destruct (pc_eqb (cpc (calls s c)) PWritten); [|discriminate].
+  destruct (waiting_resp s) eqn:W; inversion Hs; subst; simpl; auto. split; [exact W|discriminate].
+Qed.
